@@ -417,10 +417,10 @@ def location_total(run):
         run.case = 'assist(from-branch, norm_package fails)'
 
         import supp.util as U
-        src3 = loader.bare_instance(U.Source, tree=None, lines=['from . import'], filename='f.py', source='from . import', orig_source='from . import')
-        f = loader.load('supp.assistant', 'assist', stubs=dict(Source=lambda s, fn, pos: s))
+        # (the real Source: the marked text `from .<mark> import` does not parse, which is what makes it an unfinished import)
+        f = loader.load('supp.assistant', 'assist')
         try:
-            f(Proj(), src3, (1, 6), 'f.py')
+            f(Proj(), 'from . import', (1, 6), 'f.py')
             exc = None
         except SyntaxError:
             exc = None
